@@ -17,6 +17,10 @@ duplicated into both branches so that definitions are join-free):
   sql_update_exec         `update` from `query = 'UPDATE ...'` to `self.c.executemany(query, data)`: (text, data rows)
   sql_update_column_exec  `update_column`: (text, data rows)
   sql_add_column_exec     `add_column`: the text (Python's `str` is a parameter)
+  sql_intersection_query  `many2sql.get_intersection` up to `self.conn.execute(query)`: the `select t.c, … from t1 INNER JOIN t2 … on
+                          t1.a=t2.a and …;` text (nested loops over tables / columns / match attributes, `[:-2]`, `[:-5]` trimming)
+  sql_intersection_ncol   `many2sql.get_intersection`: `ncol` (14 for `*`, else the number of comma-separated pieces)
+  sql_intersection_split  `many2sql.get_intersection` after the query: the joined rows cut into one row list per structure
 
 Subset.  Types Str | Int | Bool | Val | Arg | Kwargs | List T | Opt T | Tuple.  Expressions: literals, names, `self.<limit>`,
 `+ - *` chosen by type (str / list concatenation, int arithmetic, `v + 1` on a value = fallible `Rt.addInt`), comparisons,
@@ -218,6 +222,11 @@ class Tr:
                 self.refuse('and/or of non-booleans', e)
             op = ' ∧ ' if isinstance(e.op, ast.And) else ' ∨ '
             return '(' + op.join(c for c, _ in parts) + ')', 'Bool'
+        if isinstance(e, ast.UnaryOp) and isinstance(e.op, ast.USub):
+            c, t = self.expr(e.operand, env, ind)
+            if t != 'Int':
+                self.refuse('unary minus of a non-int', e)
+            return f'(-{c})', 'Int'
         if isinstance(e, ast.UnaryOp) and isinstance(e.op, ast.Not):
             c, t = self.expr(e.operand, env, ind)
             if t != 'Bool':
@@ -332,6 +341,11 @@ class Tr:
                 if ta != 'Int':
                     self.refuse('slice bound that is not an int', e)
                 return f'(Py.sliceFrom {v} {a})', 'Str'
+            if tv == 'Str' and s.lower is None and s.upper is not None:
+                b, tb = self.expr(s.upper, env, ind)
+                if tb != 'Int':
+                    self.refuse('slice bound that is not an int', e)
+                return f'(Py.slice {v} (0 : Int) {b})', 'Str'
             if is_list(tv) and s.lower is not None and s.upper is not None:
                 a, ta = self.expr(s.lower, env, ind)
                 b, tb = self.expr(s.upper, env, ind)
@@ -438,6 +452,12 @@ class Tr:
                 if t != 'Int':
                     self.refuse('range of a non-int', e)
                 return f'(Rt.range {a})', ('List', 'Int')
+            if name == 'range' and len(args) == 2:
+                a, ta = self.expr(args[0], env, ind)
+                b, tb = self.expr(args[1], env, ind)
+                if ta != 'Int' or tb != 'Int':
+                    self.refuse('range of a non-int', e)
+                return f'(Rt.range2 {a} {b})', ('List', 'Int')
             if name == 'map' and len(args) == 2 and isinstance(args[0], ast.Lambda):
                 lam = args[0]
                 if len(lam.args.args) != 1 or lam.args.defaults or lam.args.vararg or lam.args.kwarg:
@@ -470,6 +490,8 @@ class Tr:
             m = f.attr
             if m == 'format' and isinstance(f.value, ast.Constant) and isinstance(f.value.value, str) and not e.args:
                 return self.format(e, env, ind)
+            if m == 'keys' and ast.unparse(f.value) == 'self.col' and not e.args:
+                return '(List.map (fun p => p.1.toList) Gen.col)', ('List', 'Str')
             recv, tr = self.expr(f.value, env, ind)
             tr = prune(tr)
             if m == 'startswith' and tr == 'Str' and len(e.args) == 1:
@@ -570,6 +592,16 @@ class Tr:
             if isinstance(tg, ast.Name):
                 c, t = self.expr(s.value, env, ind)
                 return self.assign(tg.id, c, t, rest, env, ind, ctx)
+            if isinstance(tg, ast.Tuple) and isinstance(s.value, ast.Tuple) and len(tg.elts) == len(s.value.elts) and \
+                    all(isinstance(x, ast.Name) for x in tg.elts):
+                # `a, b = x, y`: the right-hand sides are evaluated first
+                vals = [self.expr(x, env, ind) for x in s.value.elts]
+                env2 = dict(env)
+                for x, (c, t) in zip(tg.elts, vals):
+                    n = self.fresh(x.id)
+                    self.emit(ind, f'let {n} := {c}')
+                    env2[x.id] = (n, t)
+                return self.block(rest, env2, ind, ctx)
             self.refuse(f'assignment to {ast.unparse(tg)}', s)
         if isinstance(s, ast.AugAssign):
             if isinstance(s.target, ast.Name):
@@ -592,6 +624,24 @@ class Tr:
             a, ta = self.expr(s.value.args[0], env, ind)
             a = self.coerce(a, ta, prune(xt)[1], s)
             return self.assign(x, f'({xc} ++ [{a}])', xt, rest, env, ind, ctx)
+        if isinstance(s, ast.Expr) and isinstance(s.value, ast.Call) and isinstance(s.value.func, ast.Attribute) and \
+                s.value.func.attr == 'append' and isinstance(s.value.func.value, ast.Subscript) and \
+                isinstance(s.value.func.value.value, ast.Name) and len(s.value.args) == 1 and \
+                not isinstance(s.value.func.value.slice, ast.Slice):
+            # `x[i].append(v)`: read the element, extend it, write it back
+            sub = s.value.func.value
+            x = sub.value.id
+            if x not in env or not is_list(env[x][1]) or not is_list(prune(env[x][1])[1]):
+                self.refuse(f'`{x}[i].append` on something that is not a list of lists', s)
+            xc, xt = env[x]
+            i, ti = self.expr(sub.slice, env, ind)
+            if ti != 'Int':
+                self.refuse('index that is not an int', s)
+            a, ta = self.expr(s.value.args[0], env, ind)
+            a = self.coerce(a, ta, prune(prune(xt)[1])[1], s)
+            row = self.bind(ind, f'Rt.getItem {xc} {i}')
+            new = self.bind(ind, f'Rt.setItem {xc} {i} ({row} ++ [{a}])')
+            return self.assign(x, new, xt, rest, env, ind, ctx)
         if isinstance(s, ast.If):
             return self.if_(s, rest, env, ind, ctx)
         if isinstance(s, ast.For):
@@ -757,7 +807,23 @@ class Tr:
         c, ty = self.expr(t, env, ind)
         if ty != 'Bool':
             self.refuse(f'condition of type {ty}', s)
-        return self.plain_if(c, body, list(s.orelse), rest, env, ind, ctx)
+        oe = list(s.orelse)
+        if len(body) == 1 and len(oe) == 1 and all(isinstance(b, ast.Assign) and len(b.targets) == 1 and isinstance(b.targets[0], ast.Name)
+                                                   for b in (body[0], oe[0])) and body[0].targets[0].id == oe[0].targets[0].id:
+            # both branches assign the same variable: one `let` with an `if` expression (no duplication of the continuation)
+            n0, tmp0, cnt0 = len(self.lines), self.tmp, dict(self.counter)
+            try:
+                a, ta = self.expr(body[0].value, env, ind)
+                b, tb = self.expr(oe[0].value, env, ind)
+                joined = len(self.lines) == n0 and same(ta, tb)
+            except NeedMonad:
+                joined = False
+            if joined:
+                return self.assign(body[0].targets[0].id, f'(if {c} then {a} else {b})', ta, rest, env, ind, ctx)
+            del self.lines[n0:]
+            self.tmp = tmp0
+            self.counter.clear(); self.counter.update(cnt0)
+        return self.plain_if(c, body, oe, rest, env, ind, ctx)
 
     def plain_if(self, c, body, orelse, rest, env, ind, ctx):
         self.emit(ind, f'if {c} then')
@@ -894,7 +960,7 @@ def find_execute(s):
     """the call `self.c.execute(...)` / `self.c.executemany(...)` in a statement, if any"""
     for n in ast.walk(s):
         if isinstance(n, ast.Call) and isinstance(n.func, ast.Attribute) and n.func.attr in ('execute', 'executemany') and \
-                ast.unparse(n.func.value) == 'self.c':
+                ast.unparse(n.func.value) in ('self.c', 'self.conn'):
             return n
     return None
 
@@ -936,6 +1002,11 @@ def assigned_names(stmts, skip=None):
             elif isinstance(s, ast.Expr) and isinstance(s.value, ast.Call) and isinstance(s.value.func, ast.Attribute) and \
                     s.value.func.attr == 'append' and isinstance(s.value.func.value, ast.Name):
                 add(s.value.func.value.id)
+            elif isinstance(s, ast.Expr) and isinstance(s.value, ast.Call) and isinstance(s.value.func, ast.Attribute) and \
+                    s.value.func.attr == 'append' and isinstance(s.value.func.value, ast.Subscript):
+                b = base(s.value.func.value)
+                if b:
+                    add(b)
             elif isinstance(s, ast.If):
                 if not (skip is not None and skip(s)):
                     walk(s.body)
@@ -1258,6 +1329,64 @@ def generate():
             raise Refuse('pdb2sql.add_column', 'does not end in self.c.execute(query)')
         return text
 
+    # ---- many2sql.get_intersection -----------------------------------------------------------------
+    def mod_many():
+        try:
+            return parse_module('many2sql.py')
+        except Exception as e:
+            raise Refuse('many2sql.py', f'source not parsed: {type(e).__name__}: {e}')
+
+    def intersection_parts():
+        f = find_func(mod_many(), 'many2sql.get_intersection')
+        if [a.arg for a in f.args.args] != ['self', 'column', 'match']:
+            raise Refuse('many2sql.get_intersection', 'parameters changed')
+        body = stmts_of(f)
+        if not body or ast.unparse(body[0]) != 'names = self._get_table_names()':
+            raise Refuse('many2sql.get_intersection', 'does not start with `names = self._get_table_names()`')
+        k = next((i for i, s in enumerate(body) if isinstance(s, (ast.Assign, ast.Expr)) and find_execute(s) is not None), None)
+        if k is None or not (isinstance(body[k], ast.Assign) and isinstance(body[k].targets[0], ast.Name)):
+            raise Refuse('many2sql.get_intersection', '`raw_data = self.conn.execute(query)` not found')
+        return f, body[1:k + 1], body[k].targets[0].id, body[k + 1:]
+
+    def intersection_query():
+        f, frag, raw, tail = intersection_parts()
+        params = [('names', 'names', ('List', 'Str')), ('column', 'column', 'Str'), ('match', 'match_', ('List', 'Str'))]
+        text, tr = build_def('many2sql.get_intersection', 'intersection_query', params,
+                             '`many2sql.get_intersection`, from `ntable = len(names)` to `self.conn.execute(query)`: the statement text '
+                             '(`names` = `self._get_table_names()`)', comment_src(frag, 60),
+                             lambda tr, env: tr.block(frag, env, 0, ('frag',)), lambda tr: tr.frag_ty, known)
+        if tr.frag_ty != 'Str' or tr.frag_method != 'execute':
+            raise Refuse('many2sql.get_intersection', 'does not end in self.conn.execute(query)')
+        return text
+
+    def intersection_ncol():
+        f, frag, raw, tail = intersection_parts()
+        k = next((i for i, s in enumerate(frag) if isinstance(s, ast.Assign) and len(s.targets) == 1 and
+                  isinstance(s.targets[0], ast.Name) and s.targets[0].id == 'ncol'), None)
+        if k is None:
+            raise Refuse('many2sql.get_intersection', '`ncol = ...` not found before the query')
+        ret = ast.Return(value=ast.Name(id='ncol', ctx=ast.Load()))
+        ast.copy_location(ret, frag[k]); ast.fix_missing_locations(ret)
+        part = frag[:k + 1] + [ret]
+        params = [('names', 'names', ('List', 'Str')), ('column', 'column', 'Str')]
+        text, tr = build_def('many2sql.get_intersection', 'intersection_ncol', params,
+                             '`many2sql.get_intersection`: the number of columns per structure (`ncol`) that the cutting of the joined '
+                             'rows uses', comment_src(frag[:k + 1]), lambda tr, env: tr.block(part, env, 0, ('fn', 'Int')),
+                             lambda tr: 'Int', known)
+        return text
+
+    def intersection_split():
+        f, frag, raw, tail = intersection_parts()
+        used = {n.id for s in tail for n in ast.walk(s) if isinstance(n, ast.Name)}
+        if not {raw, 'ntable', 'ncol'} <= used or used & {'names', 'column', 'match', 'query'}:
+            raise Refuse('many2sql.get_intersection', 'the part after the query uses other variables than raw_data, ntable, ncol')
+        params = [(raw, raw, ('List', ('List', 'Val'))), ('ntable', 'ntable', 'Int'), ('ncol', 'ncol', 'Int')]
+        want = ('List', ('List', ('List', 'Val')))
+        text, tr = build_def('many2sql.get_intersection', 'intersection_split', params,
+                             '`many2sql.get_intersection`, after the query: the rows of the join cut into one row list per structure',
+                             comment_src(tail), lambda tr, env: tr.block(tail, env, 0, ('fn', want)), lambda tr: want, known)
+        return text
+
     do_unit('sql_runtime', runtime)
     do_unit('sql_to_sql_value', to_sql_value)
     do_unit('sql_get_nokw', get_all)
@@ -1268,6 +1397,9 @@ def generate():
     do_unit('sql_update_exec', update_exec)
     do_unit('sql_update_column_exec', update_column_exec)
     do_unit('sql_add_column_exec', add_column_exec)
+    do_unit('sql_intersection_query', intersection_query)
+    do_unit('sql_intersection_ncol', intersection_ncol)
+    do_unit('sql_intersection_split', intersection_split)
 
     text = ('/- GENERATED by /verif/py/translate_ext_sql.py from /repo/pdb2sql/pdb2sqlcore.py — do not edit.\n'
             '   The statements of get / _format_get_output / update / update_column / add_column that build the SQL text and the bound\n'
@@ -1319,6 +1451,9 @@ def len {α : Type} (l : List α) : Int := l.length
 
 /-- `range(n)` -/
 def range (n : Int) : List Int := (List.range n.toNat).map (fun (k : Nat) => (k : Int))
+
+/-- `range(a, b)` -/
+def range2 (a b : Int) : List Int := (List.range (b - a).toNat).map (fun (k : Nat) => a + (k : Int))
 
 /-- `enumerate(xs)` -/
 def enumerate {α : Type} (xs : List α) : List (Int × α) := xs.zipIdx.map (fun p => ((p.2 : Int), p.1))
